@@ -309,7 +309,7 @@ for mk, fns in RO_FUNCS.items():
 # ------------------------------------------------------------------------------------------------
 # L2 items: constructors, setters, refcount primitives (C04, C06, C13)
 OPS_CONTRACTS = ["contracts/items_ro.h", "contracts/items_ops.h", "contracts/memory_utils.h"]
-OPS_PROPS = {"C04": FUNC + FRAME, "C06": FUNC + FRAME, "C13": FUNC, "C01": SAFETY, "C17": FRAME}
+OPS_PROPS = {"C04": FUNC + FRAME, "C06": FUNC + FRAME + SAFETY, "C13": FUNC, "C01": SAFETY, "C17": FRAME}
 
 
 def OP(fn, defines, replace=(), props=None, name=None, must=1, covers=1, backend=None, **kw):
@@ -371,7 +371,7 @@ OP("cbor_build_tag", ["H_BUILD_TAG"], replace=["cbor_new_tag", "cbor_tag_set_ite
 # L2 containers (C12 list view, C04 deltas, C06 atomicity, C20 growth arithmetic, C13 traffic)
 CONT_CONTRACTS = ["contracts/items_ro.h", "contracts/items_ops.h", "contracts/memory_utils.h", "contracts/items_cont.h",
                   "contracts/refcount.h", "contracts/arrays2.h"]
-CONT_PROPS = {"C12": FUNC + FRAME, "C04": FUNC + FRAME, "C06": FUNC + FRAME, "C13": FUNC, "C20": FUNC, "C01": SAFETY, "C17": FRAME}
+CONT_PROPS = {"C12": FUNC + FRAME + SAFETY, "C04": FUNC + FRAME, "C06": FUNC + FRAME + SAFETY, "C13": FUNC, "C20": FUNC, "C01": SAFETY, "C17": FRAME}
 
 
 def CONT(fn, defines, replace=(), must=1, covers=1, **kw):
@@ -394,7 +394,7 @@ CONT("cbor_new_indefinite_map", ["H_CTOR", "CALL=cbor_new_indefinite_map()"], mu
 CONT("_cbor_map_add_key", ["H_MAP_ADD_KEY"], replace=["cbor_isa_map", "cbor_map_is_definite", "cbor_map_handle", "_cbor_safe_to_multiply", "cbor_incref"],
      must=8, covers=7, cost=60, timeout=900)
 CONT("_cbor_map_add_value", ["H_MAP_ADD_VALUE"], replace=["cbor_isa_map", "cbor_map_handle", "cbor_incref"], must=2, covers=2, cost=30)
-CONT("cbor_map_add", ["H_MAP_ADD"], replace=["cbor_isa_map", "_cbor_map_add_key", "_cbor_map_add_value"], must=5, covers=7, cost=60, timeout=900)
+CONT("cbor_map_add", ["H_MAP_ADD"], replace=["cbor_isa_map", "_cbor_map_add_key", "_cbor_map_add_value"], must=6, covers=7, cost=60, timeout=900)
 CONT("cbor_bytestring_add_chunk", ["H_ADD_CHUNK", "MK=mk_indef_bytestring", "MKCHUNK=mk_def_bytestring", "ADD_CHUNK=cbor_bytestring_add_chunk"],
      replace=["cbor_isa_bytestring", "cbor_bytestring_is_indefinite", "cbor_bytestring_is_definite", "_cbor_safe_to_multiply", "cbor_incref"],
      must=6, covers=5, cost=60, timeout=900)
@@ -405,7 +405,7 @@ CONT("cbor_string_add_chunk", ["H_ADD_CHUNK", "MK=mk_indef_string", "MKCHUNK=mk_
 # cbor_decref: one step proof per node kind, children through the induction-hypothesis twin
 DECREF_CONTRACTS = CONT_CONTRACTS
 for kind, loops in (("UINT", False), ("NEGINT", False), ("FLOAT_CTRL", False), ("DEF_BYTESTRING", False), ("DEF_STRING", False),
-                    ("INDEF_BYTESTRING", True), ("INDEF_STRING", True), ("ARRAY", True), ("MAP", True), ("TAG", False)):
+                    ("INDEF_BYTESTRING", True), ("INDEF_STRING", True), ("ARRAY", True), ("TAG", False)):
     P(name="decref_" + kind.lower(), props={"C04": FUNC + FRAME + ["loop"], "C13": [], "C01": SAFETY, "C06": [], "C17": FRAME},
       lib=ITEMLIB, stubs=ITEM_STUBS + ["stubs/decref_ghost.c"], contracts=DECREF_CONTRACTS, harness="harness/decref.c",
       defines={"UINT": ["KIND_INT", "VERIF_INT_TYPE=CBOR_TYPE_UINT"], "NEGINT": ["KIND_INT", "VERIF_INT_TYPE=CBOR_TYPE_NEGINT"]}.get(kind, ["KIND_" + kind]) + ["VERIF_FIXED_NODES"],
@@ -485,3 +485,42 @@ for kind in ("INT", "FLOAT_CTRL", "DEF_BYTESTRING", "DEF_STRING", "INDEF_BYTESTR
         covers=1 if kind in ("INT", "FLOAT_CTRL", "DEF_BYTESTRING", "DEF_STRING") else 2 if kind == "TAG" else 3,
         props={"C07": FUNC + ["loop"], "C20": FUNC + ["loop"], "C18": FRAME, "C13": [], "C01": SAFETY, "C17": FRAME},
         replay="tag_readonly" if kind == "TAG" else None)
+
+# cbor_decref on a map: the loop contract over the pair storage (pointer-typed loop variable `handle++`, two child
+# releases per iteration) ran out of memory on every back end tried (MiniSat, CaDiCaL, cvc5; 24 GB).  Bounded
+# stand-in: the map loop is unwound for maps of at most 3 pairs; the other loops keep their contracts.
+P(name="decref_map_bounded", kind="bounded", bound="maps with at most 3 stored pairs (capacity and everything else symbolic)",
+  props={"C04": FUNC + FRAME + ["loop"], "C13": [], "C01": SAFETY, "C06": [], "C17": FRAME},
+  lib=ITEMLIB, stubs=ITEM_STUBS + ["stubs/decref_ghost.c"], contracts=DECREF_CONTRACTS, harness="harness/decref.c",
+  defines=["KIND_MAP", "VERIF_FIXED_NODES", "MAP_BOUND=3"], enforce="cbor_decref", twins={"cbor_decref": "cbor_decref__child"},
+  replace=["cbor_decref__child"], loops="loops/decref_nomap.json", loop_fingerprint={"cbor_decref": 4},
+  unwindset="cbor_decref_wrapped_for_contract_checking.3:5",
+  must_exist=[r"cbor_decref\.postcondition\.4"], min_covers=2, cost=120, timeout=900, object_bits=10)
+
+# ------------------------------------------------------------------------------------------------
+# cbor_copy (C11, C06): step per node kind
+COPYLIB = ITEMLIB + ["cbor.c", "cbor/streaming.c", "cbor/internal/loaders.c", "cbor/internal/builder_callbacks.c", "cbor/internal/stack.c",
+                     "cbor/serialization.c", "cbor/encoding.c", "cbor/internal/encoders.c"]
+COPY_STUBS = ITEM_STUBS + ["stubs/decref_ghost.c", "stubs/copy_ghost.c", "stubs/ldexp_model.c"]
+COPY_CONTRACTS = CONT_CONTRACTS + ["contracts/copy.h"]
+COPY_PROPS = {"C11": FUNC + FRAME + ["loop"], "C06": FUNC + FRAME + SAFETY, "C13": [], "C01": SAFETY, "C04": [], "C17": FRAME}
+
+
+def COPY(kind, extra_defs=(), replace=(), loops=None, covers=2, **kw):
+    P(name="copy_" + kind.lower() + kw.pop("suffix", ""), props=dict(COPY_PROPS), lib=COPYLIB, stubs=COPY_STUBS, contracts=COPY_CONTRACTS,
+      harness="harness/copy.c", defines=["COPY_KIND_" + kind, "CBOR_PRETTY_PRINTER_OFF"] + list(extra_defs), enforce=None,
+      also_verified=["cbor_copy", "_cbor_copy_int", "_cbor_copy_float_ctrl"], twins={"cbor_copy": "cbor_copy__child"},
+      replace=["cbor_copy__child"] + list(replace), loops=loops, min_covers=covers, cost=60, timeout=900, object_bits=10,
+      must_exist=[r"cbor_copy__child\.precondition\.\d+"] if kind in ("TAG", "ARRAY", "MAP") else [], **kw)
+
+
+for w in ("0", "1", "2", "3"):
+    COPY("INT", extra_defs=["VERIF_INT_WIDTH=" + w, "VERIF_INT_TYPE=CBOR_TYPE_UINT"], suffix="_uint_w" + w, replay="copy_negint",
+         replace=["cbor_build_uint8", "cbor_build_uint16", "cbor_build_uint32", "cbor_build_uint64"])
+    COPY("INT", extra_defs=["VERIF_INT_WIDTH=" + w, "VERIF_INT_TYPE=CBOR_TYPE_NEGINT"], suffix="_negint_w" + w, replay="copy_negint",
+         replace=["cbor_build_uint8", "cbor_build_uint16", "cbor_build_uint32", "cbor_build_uint64"])
+    COPY("FLOAT_CTRL", extra_defs=["VERIF_FLOAT_WIDTH=" + w], suffix="_w" + w,
+         replace=["cbor_build_ctrl", "cbor_build_float2", "cbor_build_float4", "cbor_build_float8"])
+COPY("DEF_BYTESTRING", replace=["cbor_build_bytestring"])
+COPY("DEF_STRING", replace=["cbor_build_stringn"])
+COPY("TAG", replace=["cbor_tag_item/cbor_tag_item__hered", "cbor_move/cbor_move__hered", "cbor_build_tag", "cbor_decref"])
